@@ -106,7 +106,26 @@ def default_c(o):
     return json_default(o)
 
 
-DEFAULTS = {"default": json_default, "a": default_a, "b": default_b, "c": default_c}
+class Opaque(object):
+    """A class no json_default knows."""
+
+
+class HalfBuilt(object):
+    """Logged from its own __init__ before its attributes exist: repr() raises AttributeError."""
+
+    def __repr__(self):
+        return "<HalfBuilt %s>" % (self.name,)
+
+
+def default_d(o):
+    """The documented way to extend: delegate to the library's json_default and handle its TypeError for what it does not know."""
+    try:
+        return json_default(o)
+    except TypeError:
+        return {"unsupported": type(o).__name__}
+
+
+DEFAULTS = {"default": json_default, "a": default_a, "b": default_b, "c": default_c, "d": default_d}
 
 
 def plan(tier, seed):
@@ -120,6 +139,9 @@ def plan(tier, seed):
 def gen_rich(rng, which):
     """Returns (value, expected decoded image or callable checker)."""
     r = rng.randrange(17)
+    if which == "d" and r in (9, 10):
+        o = rng.choice([Opaque, HalfBuilt])()
+        return o, {"unsupported": type(o).__name__}
     if r == 16 and which == "c":
         r = 15  # (json_default 'c' gives sets and complex numbers its own encoding)
     if r == 15:
@@ -220,7 +242,7 @@ def match(expected, got):
 
 def one(seed, i, tier, res, pool):
     rng = random.Random("%s:C10:%d" % (seed, i))
-    which = rng.choice(["default", "default", "a", "b", "c"])
+    which = rng.choice(["default", "default", "a", "b", "c", "d"])
     default = DEFAULTS[which]
     maxdepth = 12 if tier == "quick" else 60
     fields = {}
